@@ -14,6 +14,7 @@ import struct
 import unittest.mock
 
 from common import hx, setup_repo_import
+from lib import doipsys as SYS
 from vloop import MemWriter, Stall, vrun
 
 ID = "C06"
@@ -22,15 +23,26 @@ PROOF = "Gallia.Proofs.C06"
 DRIVER = "c06"
 ORACLE = False
 ASSUMPTIONS = [
-    "asyncio.StreamReader.readexactly consumes nothing until it can return; asyncio.Queue is FIFO and an unbounded "
-    "put never suspends; asyncio.wait_for cancels the inner awaitable at the deadline; asyncio.Lock is released by "
-    "`async with` on exception and cancellation",
-    "TCP segmentation is represented by StreamReader.feed_data chunking; drain() of the in-memory writer yields once "
-    "and never blocks (no back-pressure); wall-clock latency of the alive-check reply is outside the model "
-    "('within the alive-check time' is checked as 'at the virtual instant the request is complete')",
-    "one client task at a time uses the connection (concurrent users of one client are property C05); end-of-stream "
-    "while blocked belongs to C08 and is only touched through frames that kill the reader task",
+    "asyncio.StreamReader.readexactly consumes nothing until it can return; asyncio.Queue is FIFO, `get()` on a non-empty "
+    "queue does not suspend and an unbounded `put` never suspends (that the queues of doip.py ARE unbounded is regenerated "
+    "from the AST and proved: `queues_unbounded`); asyncio.wait_for cancels the inner awaitable at the deadline; asyncio.Lock "
+    "is released by `async with` on exception and cancellation",
+    "TCP segmentation is represented by StreamReader.feed_data chunking; drain() either suspends once (in-memory writer) or "
+    "not at all (plain socket without back-pressure) - both schedules are driven and every theorem holds for an arbitrary "
+    "schedule `yields`; wall-clock latency of the alive-check reply is outside the model ('within the alive-check time' is "
+    "proved and checked as 'in the reader-task step that parsed the request, before the next frame is handled, at the "
+    "virtual instant the request is complete')",
+    "one client task uses the connection (a call issued while another one is pending is not part of the model; concurrent "
+    "users of one client are property C05); between two events the loop comes to rest, i.e. a client call starts when the "
+    "reader task has parsed what has arrived",
+    "exact ties are not generated: a gateway segment arriving at the very instant a call starts or a timer expires (the "
+    "order of equal-time callbacks is an event-loop detail; the model lets timers go first and the caller's timer, armed "
+    "first, win against the 2 s protocol timer); a caller timeout of 0 (asyncio.wait_for special-cases it)",
     "addresses fit 16 bits and protocol version / activation type fit 8 bits (struct.pack refuses anything else)",
+    "an acknowledgement carries nothing that ties it to one request beyond the optional echo: one that arrives after the "
+    "caller gave up (connection still open) stays queued and is what the next write sees first "
+    "(`doip_stale_ack_serves_next_write`, same in the code); after the 2 s acknowledgement time the connection is closed "
+    "and a late acknowledgement serves nothing",
 ]
 
 CFGS = [(0x0E00, 0x001D, 2), (0x0E80, 0x1001, 3), (0xFFFF, 0x0000, 0xFF), (0x0001, 0xFFFF, 1)]
@@ -549,6 +561,17 @@ def gen_scripts(ctx):
             for pos in POSITIONS:
                 yield (("reader-ends:" + pos, template(pre + [b] + [okack], pos, CFGS[0])))
 
+    # ... and with the awaited frame queued in the same segment as the frame that ends the reader task, not at its head: a
+    # consumer woken on a connection closed meanwhile gets the frame it was woken with and nothing more
+    for b in bad[:3]:
+        for pre in ([["diag", tgt + 1, src, "7f01"], ["diag", tgt, src, "6204"]],
+                    [["diag", tgt, src, "6204"], ["diag", tgt + 1, src, "7f01"]],
+                    [["diag", tgt + 1, src, "7f01"], ["alive", ""], ["diag", tgt, src, "6204"]],
+                    [["diag", tgt + 1, src, "7f01"], okack], [okack, ["diag", tgt, src, "6204"]],
+                    [["alive", ""], ["diag", tgt + 1, src, "7f01"], okack]):
+            for pos in POSITIONS:
+                yield (("reader-ends-behind:" + pos, template(pre + [b], pos, CFGS[0])))
+
     # 5b. codec: frames of the dispatched payload types with arbitrary (mostly short / boundary) payloads, idle
     for _ in range(ctx.pick(400, 4000)):
         cfg = rng.choice(CFGS)
@@ -590,6 +613,418 @@ def gen_scripts(ctx):
     yield (("connect:timing", {"cfg": list(CFGS[0]), "ops": [{"op": "connect", "atype": 0, "tmo": 5000}]}))
     ctx.exhaustive_parts.append("routing activation request bytes for all 256 activation types (x protocol versions "
                                 "{0,1,2,3,255}, boundary addresses); all 256 routing activation response codes")
+
+
+# --------------------------------------------------------------------------------------------------------------
+# whole executions (Model/DoipSys.lean): timed scripts, see lib/doipsys.py
+
+W1 = "22f190"
+W2 = "3e00"
+SYS_CLASSES = ["ap", "a1", "an", "ax", "ao", "dT", "dO", "al", "un"]
+SYS_CLASSES_SMALL = ["ap", "a1", "ax", "dT", "al"]
+SYS_SLOTS = [5, 105, 405, 1005, 2205]
+SYS_PROGRAMS = {
+    # (think, call ...)
+    "W;R": [[10, "write", W1, None], [40, "read", 300]],
+    "Wshort;W;R": [[10, "write", W1, 480], [40, "write", W2, None], [40, "read", 300]],
+    "R;W;R": [[10, "read", 300], [40, "write", W1, None], [40, "read", 300]],
+    "W;W;R;R": [[10, "write", W1, None], [40, "write", W2, None], [40, "read", 300], [40, "read", 300]],
+    "W;Rinf;W": [[10, "write", W1, None], [40, "read", None], [40, "write", W2, 3000]],
+    "W;late W;R": [[10, "write", W1, None], [2100, "write", W2, None], [40, "read", 300]],
+}
+
+
+def sys_frame(cls, cfg, n):
+    src, tgt, _ = cfg
+    if cls == "ap":
+        return ["ackp", tgt, src, ""]
+    if cls == "a1":
+        return ["ackp", tgt, src, W1]
+    if cls == "an":
+        return ["ackn", tgt, src, 6, ""]
+    if cls == "ax":
+        return ["ackn", tgt, src, 3, ""]
+    if cls == "ao":
+        return ["ackp", (tgt + 1) & 0xFFFF, src, ""]
+    if cls == "dT":
+        return ["diag", tgt, src, bytes([0x62, n & 0xFF]).hex()]
+    if cls == "dO":
+        return ["diag", (tgt + 1) & 0xFFFF, src, bytes([0x7F, n & 0xFF]).hex()]
+    if cls == "al":
+        return ["alive", ""]
+    if cls == "un":
+        return ["unk", 0x4001, "00"]
+    raise ValueError(cls)
+
+
+def _assignments(n, k):
+    """non-decreasing maps of n frames to k slots"""
+    return itertools.combinations_with_replacement(range(k), n)
+
+
+def sys_script(cfg, prog, placed, drain=1):
+    """placed: [(t, [frame descriptors])] with increasing t; frames of one instant travel in one segment"""
+    return {"cfg": list(cfg), "drain": drain, "cl": [list(e) for e in prog],
+            "gw": [[t, b"".join(enc(f, cfg[2]) for f in fr).hex()] for t, fr in placed if fr]}
+
+
+def gen_sys_exhaustive(ctx):
+    cfg = CFGS[0]
+    full_len = ctx.pick(2, 3)
+    small_len = ctx.pick(3, 4)
+    n_scripts = 0
+    for pname, prog in SYS_PROGRAMS.items():
+        plans = [(SYS_CLASSES, n) for n in range(0, full_len + 1)]
+        if pname in ("Wshort;W;R", "W;W;R;R") or not ctx.quick:
+            plans += [(SYS_CLASSES_SMALL, n) for n in range(full_len + 1, small_len + 1)]
+        for alphabet, n in plans:
+            for seq in itertools.product(alphabet, repeat=n):
+                frames = [sys_frame(c, cfg, i + 1) for i, c in enumerate(seq)]
+                for asg in _assignments(n, len(SYS_SLOTS)):
+                    placed = [(SYS_SLOTS[k], [f for f, a in zip(frames, asg) if a == k]) for k in range(len(SYS_SLOTS))]
+                    n_scripts += 1
+                    yield (f"sys-exhaustive:{pname}", sys_script(cfg, prog, placed))
+    ctx.exhaustive_parts.append(
+        f"whole executions: client programs {list(SYS_PROGRAMS)} x all gateway frame sequences of length <= {full_len} over "
+        f"{SYS_CLASSES} (length <= {small_len} over {SYS_CLASSES_SMALL} for the multi-write programs) x every non-decreasing "
+        f"placement of the frames into the instants {SYS_SLOTS} ms, frames of one instant in one TCP segment ({n_scripts} scripts)")
+
+
+def gen_sys_late_acks(ctx):
+    """acknowledgements around the acknowledgement deadline and around the caller's timeout, followed by another write:
+    an acknowledgement arriving after the 2 s deadline finds the connection closed; one arriving after the caller gave
+    up stays queued and is what the next write sees first"""
+    cfg = CFGS[0]
+    for d in (-3, -1, 1, 7, 300):
+        for first_tmo in (None, 480, 1500, 2600):
+            for ack in ("ap", "a1", "an", "ax"):
+                for pre in ((), ("dT",), ("al",), ("dO", "al")):
+                    start = 10
+                    dl = start + (2000 if first_tmo is None or first_tmo > 2000 else first_tmo)
+                    prog = [[10, "write", W1, first_tmo], [50, "write", W2, None], [50, "read", 300], [50, "write", W1, 2500]]
+                    placed = [(105, [sys_frame(c, cfg, i + 1) for i, c in enumerate(pre)]),
+                              (dl + d, [sys_frame(ack, cfg, 9)]),
+                              (dl + d + 400, [sys_frame("ap", cfg, 9), sys_frame("dT", cfg, 7)])]
+                    yield ("sys-late-ack", sys_script(cfg, prog, placed))
+
+
+def gen_sys_bursts(ctx):
+    """more frames than any small queue bound pile up unconsumed - while the client is idle, and in the local list of a
+    write waiting for its acknowledgement - followed by an alive check, then everything is read: the reader task must not
+    stall behind the backlog (alive check answered at its arrival) and putting the skipped frames back must not fail"""
+    cfg = CFGS[0]
+    ver = cfg[2]
+    for n in ctx.pick((33, 48, 80), (33, 34, 48, 65, 80, 130)):
+        frames = []
+        k = 0
+        for i in range(n):
+            if i in (1, n // 2, n - 1):
+                k += 1
+                frames.append(sys_frame("dT", cfg, k))
+            else:
+                frames.append(sys_frame("dO", cfg, i))
+        reads = [[30, "read", 300] for _ in range(k + 1)]
+        alive = enc(["alive", ""], ver).hex()
+        one = b"".join(enc(f, ver) for f in frames).hex()
+        for drain in (1, 0):
+            # idle client, the burst in one segment / in segments of 7 frames
+            yield ("sys-burst:idle", {"cfg": list(cfg), "drain": drain, "gw": [[105, one], [905, alive]],
+                                      "cl": [[2000, "read", 300]] + reads + [[30, "write", W1, 700]]})
+            segs = [[105 + 10 * j, b"".join(enc(f, ver) for f in frames[j * 7:(j + 1) * 7]).hex()]
+                    for j in range((n + 6) // 7)]
+            yield ("sys-burst:idle-segments", {"cfg": list(cfg), "drain": drain, "gw": segs + [[segs[-1][0] + 300, alive]],
+                                               "cl": [[2500, "read", 300]] + reads})
+            # a write waiting for its acknowledgement skips the whole burst, then the acknowledgement arrives
+            yield ("sys-burst:ack-wait", {"cfg": list(cfg), "drain": drain,
+                                          "gw": [[105, one], [205, alive], [305, enc(sys_frame("ap", cfg, 0), ver).hex()],
+                                                 [405, alive]],
+                                          "cl": [[10, "write", W1, None]] + reads + [[30, "write", W2, 700]]})
+
+
+def gen_sys_eof(ctx):
+    """frames received, then the stream ends, then (or meanwhile) the client reads / writes.  The DoIP reader task closes
+    the connection when the stream ends (`finally: await self.close()`), so - unlike HSFZ - calls issued afterwards
+    fail at once and what is still queued is no longer handed out; a call blocked at that moment is woken"""
+    cfg = CFGS[0]
+    for seq in itertools.chain.from_iterable(itertools.product(["dT", "dO", "ap", "al"], repeat=n) for n in range(0, 4)):
+        frames = [sys_frame(c, cfg, i + 1) for i, c in enumerate(seq)]
+        for t_eof in (205, 405, 2505):
+            for prog in ([[300, "read", 300], [30, "read", 300], [30, "write", W1, 700]],
+                         [[10, "write", W1, None], [30, "read", None], [30, "read", 300]],
+                         [[10, "read", None], [30, "write", W1, None]]):
+                s = sys_script(cfg, prog, [(105, frames)])
+                s["gw"].append([t_eof, "eof"])
+                yield ("sys-eof", s)
+
+
+def gen_sys_random(ctx):
+    rng = ctx.rng
+    counter = [0]
+    bad = [["raw", 2, 2, 0x8001, 5, "001d0e0062"], ["raw", 2, 0xFD, 0x8001, 3, "001d0e"],
+           ["raw", 2, 0xFD, 0x8002, 5, "001d0e0001"], ["raw", 2, 0xFD, 0x0000, 2, "0102"]]
+    for _ in range(ctx.pick(2500, 40000)):
+        cfg = rng.choice(CFGS) if rng.random() < 0.3 else CFGS[0]
+        ver = cfg[2]
+        counter[0] = 0
+        # client program: 2..6 calls
+        cl = []
+        if rng.random() < 0.08:
+            cl.append([rng.choice([1, 10]), "activate", rng.randrange(256), rng.choice([None, 500, 3000])])
+        for _ in range(rng.randint(2, 6)):
+            think = rng.choice([1, 10, 10, 40, 40, 200, 700, 2100])
+            r = rng.random()
+            if r < 0.5:
+                cl.append([think, "write", rng.choice([W1, W1, W2, W2, "", "22f19000"]),
+                           rng.choice([None, None, None, 300, 480, 1500, 2500, 5000])])
+            elif r < 0.95:
+                cl.append([think, "read", rng.choice([None, 100, 300, 300, 1000, 3000])])
+            else:
+                cl.append([think, "close"])
+        # gateway program: 0..8 frames at generated times, segmentation: coalesced, whole, or cut into pieces
+        n = rng.randint(0, 8)
+        span = rng.choice([600, 2500, 2500, 6000])
+        times = sorted(rng.randrange(1, span) for _ in range(n))
+        frames = []
+        for _ in range(n):
+            r = rng.random()
+            if r < 0.03:
+                frames.append(rng.choice(bad))
+            elif r < 0.06:
+                frames.append(["rar", cfg[0], cfg[1], rng.choice([0x10, 0x10, 0x06, 0x00])])
+            else:
+                frames.append(mk_frame(rng.choice(CLASSES[:6]), rng, cfg, counter))
+        gw = []
+        t_prev = 0
+        pending = b""
+        for i, (t, f) in enumerate(zip(times, frames)):
+            t = max(t, t_prev + 1)
+            b = pending + enc(f, ver)
+            pending = b""
+            nxt = times[i + 1] if i + 1 < n else t + 1000
+            mode = rng.random()
+            if mode < 0.15 and i + 1 < n:
+                pending = b  # travels together with the next frame
+                continue
+            if mode < 0.45 and len(b) > 1 and nxt - t > 4:
+                ks = sorted(rng.sample(range(1, len(b)), min(len(b) - 1, rng.randint(1, 3))))
+                parts = [b[x:y] for x, y in zip([0] + ks, ks + [len(b)])]
+                if rng.random() < 0.2:
+                    pending = parts.pop()  # an incomplete tail completed by the next segment
+                for j, part in enumerate(parts):
+                    tj = min(t + j * rng.choice([1, 3, 40]), nxt - len(parts) + j)
+                    tj = max(tj, t_prev + 1)
+                    gw.append([tj, part.hex()])
+                    t_prev = tj
+            else:
+                gw.append([t, b.hex()])
+                t_prev = t
+        if pending:
+            gw.append([t_prev + 1, pending.hex()])
+            t_prev += 1
+        if rng.random() < 0.06:
+            gw.append([t_prev + rng.choice([1, 50, 900]), "eof"])
+        yield ("sys-random" + ("" if rng.random() < 0.7 else ":nodrain"),
+               {"cfg": list(cfg), "drain": 1, "cl": cl, "gw": gw})
+
+
+def gen_sys_scripts(ctx):
+    yield from gen_sys_exhaustive(ctx)
+    yield from gen_sys_late_acks(ctx)
+    yield from gen_sys_bursts(ctx)
+    yield from gen_sys_eof(ctx)
+    for label, s in gen_sys_random(ctx):
+        if label.endswith(":nodrain"):
+            s["drain"] = 0
+        yield (label, s)
+    # the exhaustive short scripts once more on the schedule of a plain socket (drain() does not suspend)
+    cfg = CFGS[0]
+    for pname in ("W;R", "R;W;R"):
+        for n in range(0, 3):
+            for seq in itertools.product(["ap", "dT", "dO", "al"], repeat=n):
+                frames = [sys_frame(c, cfg, i + 1) for i, c in enumerate(seq)]
+                for asg in _assignments(n, 3):
+                    placed = [(SYS_SLOTS[k], [f for f, a in zip(frames, asg) if a == k]) for k in range(3)]
+                    yield (f"sys-exhaustive-nodrain:{pname}", sys_script(cfg, SYS_PROGRAMS[pname], placed, drain=0))
+
+
+def _stream_kinds(script):
+    """per gateway segment: the kinds of the frames it completes (by a plain header walk)"""
+    cfg = script["cfg"]
+    buf = b""
+    out = []
+    for t, what in script["gw"]:
+        if what == "eof":
+            out.append(f"{t}:eof")
+            continue
+        buf += bytes.fromhex(what)
+        kinds = []
+        while len(buf) >= 8:
+            v, iv, pt, ln = struct.unpack("!BBHL", buf[:8])
+            if v != iv ^ 0xFF:
+                kinds.append("badver")
+                buf = buf[8:]
+                continue
+            if len(buf) < 8 + ln:
+                break
+            pl, buf = buf[8:8 + ln], buf[8 + ln:]
+            own = len(pl) >= 4 and struct.unpack("!HH", pl[:4]) == (cfg[1], cfg[0])
+            if pt == 0x8001:
+                kinds.append("diagT" if own else "diagO")
+            elif pt == 0x8002:
+                kinds.append(("ackp" if own else "ackpO") + ("" if len(pl) <= 5 else "+echo"))
+            elif pt == 0x8003:
+                kinds.append(("ackn" if own else "acknO") + (str(pl[4]) if len(pl) > 4 else ""))
+            elif pt == 0x0007:
+                kinds.append("alive")
+            elif pt == 0x0006:
+                kinds.append("rar")
+            elif pt == 0x0000:
+                kinds.append("hnack")
+            else:
+                kinds.append(f"unk{pt:04x}")
+        runs = []
+        for k in kinds:  # run-length: a burst reads `diagO*31`
+            if runs and runs[-1][0] == k:
+                runs[-1][1] += 1
+            else:
+                runs.append([k, 1])
+        out.append(f"{t}:" + ("+".join(k if n == 1 else f"{k}*{n}" for k, n in runs) if runs else "part"))
+    return out
+
+
+def shape_sys(script):
+    cl = []
+    for e in script["cl"]:
+        if e[1] == "write":
+            cl.append(f"W({e[2] or '-'},{e[3]})@{e[0]}")
+        elif e[1] == "read":
+            cl.append(f"R({e[2]})@{e[0]}")
+        elif e[1] == "activate":
+            cl.append(f"A({e[2]},{e[3]})@{e[0]}")
+        else:
+            cl.append(f"close@{e[0]}")
+    return ";".join(cl) + "|" + ",".join(_stream_kinds(script)) + ("" if script.get("drain", 1) else "|nodrain")
+
+
+def prepare_sys(ctx, labelled):
+    """run the model; a script in which a gateway segment coincides with a client start or a timer (the order of the
+    real loop is then not determined) gets its gateway program shifted by 1 ms from that instant on, at most 4 times"""
+    ready = [None] * len(labelled)
+    todo = list(range(len(labelled)))
+    scripts = [s for _, s in labelled]
+    for _round in range(5):
+        if not todo:
+            break
+        ms = SYS.run_model_batch(ctx, [scripts[i] for i in todo])
+        again = []
+        for i, m in zip(todo, ms):
+            if m["tie"]:
+                scripts[i] = dict(scripts[i], gw=[[t + 1 if t >= m["tie"] else t, w] for t, w in scripts[i]["gw"]])
+                again.append(i)
+            else:
+                ready[i] = m
+        todo = again
+    ctx.notes["sys_dropped_ties"] = ctx.notes.get("sys_dropped_ties", 0) + len(todo)
+    return [(labelled[i][0], scripts[i], ready[i]) for i in range(len(labelled)) if ready[i] is not None]
+
+
+def _sys_candidates(script):
+    cl, gw = script["cl"], script["gw"]
+    for i in reversed(range(len(cl))):
+        yield dict(script, cl=cl[:i] + cl[i + 1:])
+    for i in reversed(range(len(gw))):
+        yield dict(script, gw=gw[:i] + gw[i + 1:])
+    for i, e in enumerate(cl):
+        if e[0] > 10:
+            yield dict(script, cl=cl[:i] + [[10] + list(e[1:])] + cl[i + 1:])
+
+
+def sys_verdict(ctx, script):
+    m = SYS.run_model_batch(ctx, [script])[0]
+    if m["tie"]:
+        return None, None, None
+    impl = SYS.run_impl(script)
+    mv = SYS.model_view(m)
+    j = SYS.judge(script, impl, mv)
+    if j is None:
+        facts = SYS.whole_execution_facts(script, impl)
+        if facts:
+            j = (facts[0][0], True, facts[0][1])
+    return j, impl, mv
+
+
+def shrink_sys(ctx, script, aspect, budget=60):
+    cur = script
+    improved = True
+    while improved and budget > 0:
+        improved = False
+        for cand in _sys_candidates(cur):
+            budget -= 1
+            if budget <= 0:
+                break
+            j, _, _ = sys_verdict(ctx, cand)
+            if j is not None and j[0] == aspect:
+                cur = cand
+                improved = True
+                break
+    return cur
+
+
+def _sys_worker(scripts):
+    setup_repo_import()
+    return [SYS.run_impl(s) for s in scripts]
+
+
+def run_sys(ctx, pool):
+    seen = {}
+    total = 0
+    labelled = list(gen_sys_scripts(ctx))
+    prepared = prepare_sys(ctx, labelled)
+    scripts = [s for _, s, _ in prepared]
+    if pool is not None and len(scripts) > 2000:
+        parts = pool.map(_sys_worker, _chunks(scripts, 64))
+        impls = [r for p in parts for r in p]
+    else:
+        impls = [SYS.run_impl(s) for s in scripts]
+    reads_total = alive_total = 0
+    for (label, s, m), impl in zip(prepared, impls):
+        ctx.ev()
+        ctx.kind(label)
+        ctx.kind(f"sys-calls:{len(s['cl'])}", f"sys-segments:{min(len(s['gw']), 9)}")
+        if s["gw"]:
+            ctx.nontrivial("sys:" + json.dumps(s, sort_keys=True))
+        for d in impl["done"]:
+            ctx.kind("sys-result:" + ":".join(d.split(":")[1:3]))
+        reads_total += len(SYS.reads_of(impl["done"]))
+        alive_total += impl["tr"].count("R")
+        mv = SYS.model_view(m)
+        j = SYS.judge(s, impl, mv)
+        if j is None:
+            facts = SYS.whole_execution_facts(s, impl)
+            if facts:
+                j = (facts[0][0], True, facts[0][1])
+        if j is not None:
+            lst = seen.setdefault(j[0], [0, []])
+            lst[0] += 1
+            lst[1].append((s, j))
+            lst[1].sort(key=lambda c: (len(json.dumps(c[0])), json.dumps(c[0], sort_keys=True)))
+            del lst[1][3:]
+        total += 1
+    ctx.traces_validated += total
+    if prepared:
+        k = min(len(prepared) - 1, 4000)
+        ctx.sample({"label": prepared[k][0], "script": shape_sys(prepared[k][1]), "impl": impls[k]["done"]})
+    for aspect, (count, cases) in seen.items():
+        for s, j in cases[:3]:
+            small = shrink_sys(ctx, s, aspect)
+            j2, ia, mb = sys_verdict(ctx, small)
+            j2 = j2 or j
+            ctx.disagree(f"doipsys:{aspect}:{shape_sys(small)}", f"{j2[2]} [{count} whole executions differ in this aspect]",
+                         small, impl=ia, model=mb, spec_violated=bool(j2[1]),
+                         site="gallia.transports.doip.DoIPConnection / DoIPTransport")
+    ctx.notes["sys_scripts"] = total
+    ctx.notes["sys_reads_delivered"] = reads_total
+    ctx.notes["sys_alive_replies"] = alive_total
 
 
 # --------------------------------------------------------------------------------------------------------------
@@ -655,11 +1090,11 @@ def run(ctx):
     ctx.rule = ("scripts = (source, target, version) + client operations (connect / write / read / idle), each with the "
                 "gateway frames arriving while it is in progress; distinct = distinct (script, segmentation); non-trivial "
                 "= at least one gateway frame arrives")
-    pool = None
-    if not ctx.quick or ctx.widened:
-        import multiprocessing as mp
+    import multiprocessing as mp
 
-        pool = mp.get_context("fork").Pool(min(16, mp.cpu_count() or 1))
+    # quick tier: a small pool (the whole-execution scripts are spread over it); thorough / search: all cores
+    pool = mp.get_context("fork").Pool(min(16, mp.cpu_count() or 1) if (not ctx.quick or ctx.widened)
+                                       else max(1, min(4, (mp.cpu_count() or 2) // 2)))
     seen_aspects = {}
     total = 0
 
@@ -702,6 +1137,7 @@ def run(ctx):
                 batch = []
         if batch:
             process(batch)
+        run_sys(ctx, pool)
     finally:
         if pool is not None:
             pool.terminate()
@@ -723,6 +1159,8 @@ def run(ctx):
 def replay(ctx, case):
     setup_repo_import()
     script = case.get("case", case)
+    if "gw" in script:
+        return replay_sys(ctx, script)
     impl = run_impl(script)
     model = run_model_batch(ctx, [script])[0]
     print("script:", shape(script))
@@ -735,32 +1173,70 @@ def replay(ctx, case):
     return j is not None
 
 
+def replay_sys(ctx, script):
+    m = SYS.run_model_batch(ctx, [script], verbose=True)[0]
+    impl = SYS.run_impl(script)
+    mv = SYS.model_view(m)
+    print("script:", shape_sys(script))
+    print("events:", m.get("ops"))
+    for k in ("done", "out", "tr", "q", "closed", "client"):
+        print(f"   {k:7} impl : {impl[k]}")
+        print(f"   {k:7} model: {mv[k]}")
+    j = SYS.judge(script, impl, mv)
+    if j is None:
+        facts = SYS.whole_execution_facts(script, impl)
+        if facts:
+            j = (facts[0][0], True, facts[0][1])
+    print("verdict:", j)
+    return j is not None
+
+
 MANIFEST = {
-    "level_text": ("Lean 4 theorems over an executable model of the DoIP transport: routing activation request layout for all "
-                   "256 activation types / versions / source addresses and 'usable iff the first routing activation response "
-                   "within the activation time carries the success code'; 8-byte-header framing as an instance of the generic "
-                   "cutter (every segmentation yields the same frames; encoded gateway frames are queued exactly as sent; the "
-                   "reader task queues the same frames, answers the same alive checks and ends in the same cases under any two "
-                   "segmentations of one stream); a read delivers the first queued diagnostic message of the configured pair "
-                   "and removes exactly it (iff), successive reads deliver in arrival order, acknowledgement waits keep that "
-                   "order, nothing skipped is lost (also on timeout); a write completes iff the first frame passing the "
-                   "acknowledgement test within the acknowledgement time is a positive or TargetUnreachable acknowledgement, "
-                   "otherwise fails with a connection error no later than that time; the bytes written during a blocked read / "
-                   "write / idle period are exactly one alive-check response per request at its arrival instant (the reader "
-                   "never waits for the client); characterisation of the reordering caused by the tail re-queue of the pinned "
-                   "tree with the concrete witness. Payload types, codes, timing parameters, struct formats, dispatch list and "
-                   "enum _missing_ tables are regenerated from the code on every run and tied by agreement theorems. "
-                   "Correspondence: real DoIPConnection / DoIPTransport over in-memory streams under virtual time on all frame "
-                   "sequences up to length 4 (quick) / 6 (thorough) over the gateway alphabet x 4 injection "
-                   "positions, every single split point of short streams, seeded multi-splits, timing around the "
-                   "acknowledgement time, malformed frames, all 256 activation types and response codes."),
+    "level_text": ("Lean 4 theorems over two executable models of the DoIP transport. (1) Per call (`Model/Doip`): routing activation "
+                   "request layout for all 256 activation types / versions / source addresses and 'usable iff the first routing "
+                   "activation response within the activation time carries the success code'; 8-byte-header framing as an instance "
+                   "of the generic cutter (every segmentation yields the same frames; encoded gateway frames are queued exactly as "
+                   "sent; the reader task queues the same frames, answers the same alive checks and ends in the same cases under any "
+                   "two segmentations of one stream); one read / write with the frames arriving during it. (2) Whole executions "
+                   "(`Model/DoipSys`): one connection as a small-step system; an execution is an ARBITRARY list of events (bytes "
+                   "arriving in any segmentation, write / read / routing activation with caller timeouts, close, end of stream, time "
+                   "passing with the 2 s acknowledgement / activation timers and the caller's timers) under an ARBITRARY schedule of "
+                   "reader task and blocked consumer. Proved for every event list and schedule: reads account for every diagnostic "
+                   "message of the configured pair (payloads handed out ++ those still held / queued / buffered = those of the byte "
+                   "stream, in stream order: none lost, duplicated, invented or reordered, frames skipped by read / acknowledgement / "
+                   "activation waits included, however the waits end); from any reachable idle state a write (resp. read) over any "
+                   "continuation ends with the FIRST frame passing its test among the frames queued at its start and those the stream "
+                   "delivers strictly before its deadline, at that frame's arrival instant (completes iff positive or TargetUnreachable "
+                   "acknowledgement, refused with the code otherwise), else exactly at the deadline with the caller's TimeoutError or - "
+                   "acknowledgement time - a connection error and the connection closed for good, else it is still blocked holding "
+                   "everything seen; every acknowledgement is used by at most one write; the alive-check responses written equal the "
+                   "alive-check requests completely received (one per request, each written before the reader handles the next frame and "
+                   "stamped with the instant its request became complete, independent of client phase and connection mutex), the reader handles exactly the frames of the stream in order "
+                   "(unknown payload types dropped without breaking it); frames no call accepts (other address pairs, header nacks) "
+                   "are conserved in order and never reach a read; a closed connection never has a blocked call, stays closed, "
+                   "reads / writes / takes nothing and fails every later call at once; a frame the reader cannot unpack or the end of "
+                   "the stream closes within the same event. Payload types, codes, timing parameters, struct formats, dispatch list, "
+                   "enum _missing_ tables and the capacity of every asyncio.Queue are regenerated from the code on every run and tied "
+                   "by agreement theorems (`queues_unbounded` with a bounded-queue witness). Correspondence: real DoIPConnection / "
+                   "DoIPTransport over in-memory streams under virtual time; per call: all frame sequences up to length 4 (quick) / 6 "
+                   "(thorough) over the gateway alphabet x 4 injection positions, every single split point of short streams, seeded "
+                   "multi-splits, timing around the acknowledgement time, malformed frames (also behind the awaited frame), all 256 "
+                   "activation types and response codes; whole executions: 6 client programs of 2-4 calls x all frame sequences up to "
+                   "length 2 (3 over a reduced alphabet) x every placement into 5 instants, acknowledgements around both kinds of "
+                   "deadline followed by further writes, bursts of 33-80 unconsumed frames with alive checks behind them, frames then "
+                   "end of stream then calls, seeded scripts of 2-6 calls and 0-8 frames at generated times with cuts inside frames, "
+                   "both drain schedules; compared call by call (result, instant) and as whole executions (every byte written with its "
+                   "instant, the reader's trace of frames handled / alive checks answered, final queue, closed flag)."),
     "level_note": ("Trusted: Lean kernel (axioms propext, Quot.sound, Classical.choice), asyncio contracts (StreamReader."
-                   "readexactly, Queue FIFO, wait_for cancellation, Lock release), struct, the generator and the harness. "
-                   "Partial: kernel TCP behaviour, drain() back-pressure and wall-clock latency of the alive-check reply are "
-                   "not modelled ('within the alive-check time' is 'at the virtual instant the request is complete'); one "
-                   "client task at a time (concurrent users are C05); the op-level theorems assume the reader task does not "
-                   "meet a frame it cannot unpack during the call (that case is modelled and tied, its consequences are C08)."),
-    "technique": "Lean 4 proof (generic framing lemma, induction over queues and event timelines) + regenerated tables + "
-                 "differential correspondence against the real DoIPConnection / DoIPTransport under virtual time",
+                   "readexactly, Queue FIFO / non-suspending get on a non-empty queue, wait_for cancellation, Lock release), struct, "
+                   "the generator and the harness (incl. the script-to-event-list runner in the driver). Partial: kernel TCP "
+                   "behaviour, real drain() back-pressure and wall-clock latency of the alive-check reply are not modelled; one client "
+                   "task (concurrent users are C05); client calls start when the loop has come to rest; exact ties of timers / arrivals "
+                   "are not generated; the write / read outcome theorems assume the reader task survives the continuation (what "
+                   "happens when it does not is proved separately: the call ends in that very event, with the frame it was woken with or "
+                   "a connection error; bounded-time recovery is C08)."),
+    "technique": "Lean 4 proof (generic framing lemma; conserved measures and stable predicates lifted over every event list and "
+                 "schedule; induction over the continuation of a pending call) + regenerated tables + differential correspondence "
+                 "against the real DoIPConnection / DoIPTransport under virtual time (per call and whole executions)",
     "design_ref": "DESIGN.md section 7, C06",
 }
